@@ -37,14 +37,12 @@ const codejenPath = "github.com/grafana/codejen"
 var c03ExemptAllowedState = map[string][]string{
 	"internal/codegen.Pipeline.Run range targetsByLanguage":                        {"*"},
 	"internal/jennies/java.Factory.Generate range factoryByPackage":                {},
-	"internal/jennies/php.Factory.Generate range factoryByPackage":                 {},
 	"internal/jennies/common.APIReference.referenceForSchema range virtualObjects": {},
 }
 
 var c03EmissionExemptions = map[string]string{
 	"internal/codegen.Pipeline.Run range targetsByLanguage":                        "the body is a whole language back-end; iterations are independent iff C07's clauses hold (passes run on copies, no package-level state, per-language Language values); every output path is prefixed by the language's directory; all files go through the path-keyed codejen.FS",
-	"internal/jennies/java.Factory.Generate range factoryByPackage":                "one file per package; generateFactories builds its import map and formatter locally; factoryByPackage partitions factories by package",
-	"internal/jennies/php.Factory.Generate range factoryByPackage":                 "one file per package; generateFactories builds its formatter locally; factoryByPackage partitions factories by package",
+	"internal/jennies/java.Factory.Generate range factoryByPackage":                "one file per package; generateFactories builds its import map and formatter locally; factoryByPackage partitions factories by package; the Java template set has no access to the API reference collector (checked by maporder/templates-reach-collector)",
 	"internal/jennies/common.APIReference.referenceForSchema range virtualObjects": "one file per virtual object, path derived from the object reference; formatters are per-language closures that only read their arguments",
 }
 
@@ -127,6 +125,7 @@ func checkC03(ctx *Ctx, r *Report) {
 	c07SortedValueUsed(ctx, r)
 	c03FirstWinsReached(ctx, r)
 	c07HuntedRules(ctx, r)
+	c03TemplatesReachCollector(ctx, r)
 }
 
 func (st *c03State) siteName(s mapSite) string {
@@ -1297,4 +1296,104 @@ func c03FirstWinsReached(ctx *Ctx, r *Report) {
 	r.Count("map-range sites checked for first-wins reachability", sites)
 	r.Count("map-range sites reaching a first-wins function", reaching)
 	r.Floor("first-wins functions (leave when the key is recorded, record it otherwise)", 1)
+}
+
+
+// c03TemplatesReachCollector: rendering a template is not a pure function of its data in the languages whose template
+// set is given common.APIRefTemplateHelpers (apiDeclareFunction / apiDeclareMethod append to the API reference
+// collector, and overriding templates may call them). A loop over a Go map that renders a template in such a package
+// declares those entries in map order. The set of languages is read from the source (who calls APIRefTemplateHelpers);
+// the PHP factories loop sat in the emission exemption table with the reason "builds its formatter locally", which said
+// nothing about templates.
+func c03TemplatesReachCollector(ctx *Ctx, r *Report) {
+	helper := ctx.LookupFunc("internal/jennies/common", "APIRefTemplateHelpers")
+	if helper == nil {
+		r.Undecided("anchor lost: common.APIRefTemplateHelpers")
+		return
+	}
+	n, withCollector := 0, 0
+	for _, lang := range []string{"golang", "java", "php", "python", "typescript"} {
+		p := ctx.Pkg("internal/jennies/" + lang)
+		if p == nil {
+			continue
+		}
+		info := p.TypesInfo
+		reaches := false
+		for _, f := range p.Syntax {
+			ast.Inspect(f, func(m ast.Node) bool {
+				if c, ok := m.(*ast.CallExpr); ok && callee(info, c) == helper {
+					reaches = true
+				}
+				return true
+			})
+		}
+		if reaches {
+			withCollector++
+		}
+		renders := func(body ast.Node) (bool, token.Pos) {
+			seen := map[*types.Func]bool{}
+			found, at := false, token.NoPos
+			var walk func(b ast.Node, depth int)
+			walk = func(b ast.Node, depth int) {
+				ast.Inspect(b, func(m ast.Node) bool {
+					c, ok := m.(*ast.CallExpr)
+					if !ok {
+						return true
+					}
+					fn := callee(info, c)
+					if fn == nil {
+						return true
+					}
+					if strings.HasPrefix(fn.Name(), "Render") && fn.Pkg() != nil && strings.HasSuffix(fn.Pkg().Path(), "internal/jennies/template") {
+						if !found {
+							found, at = true, c.Pos()
+						}
+						return true
+					}
+					if fn.Pkg() == p.Types && !seen[fn] && depth < 4 {
+						seen[fn] = true
+						if fd, _ := ctx.DeclOf(fn); fd != nil && fd.Body != nil {
+							walk(fd.Body, depth+1)
+						}
+					}
+					return true
+				})
+			}
+			walk(body, 0)
+			return found, at
+		}
+		for _, f := range p.Syntax {
+			for _, d := range f.Decls {
+				fd, ok := d.(*ast.FuncDecl)
+				if !ok || fd.Body == nil {
+					continue
+				}
+				fobj, _ := info.Defs[fd.Name].(*types.Func)
+				ast.Inspect(fd.Body, func(m ast.Node) bool {
+					rs, ok := m.(*ast.RangeStmt)
+					if !ok {
+						return true
+					}
+					if _, isMap := info.TypeOf(rs.X).Underlying().(*types.Map); !isMap {
+						return true
+					}
+					does, _ := renders(rs.Body)
+					if !does {
+						return true
+					}
+					n++
+					cons := fmt.Sprintf("%s renders templates inside range %s", ctx.FuncName(fobj), exprString(rs.X))
+					r.Check(!reaches, "maporder/templates-reach-collector", cons, rs.Pos(), "the templates of this language have no access to the API reference collector",
+						fmt.Sprintf("%s renders a template once per entry of a Go map, and the %s template set is given apiDeclareFunction / apiDeclareMethod: entries declared by (overriding) templates reach one API reference page in map order — the page differs from one run to the next", ctx.FuncName(fobj), lang))
+					return true
+				})
+			}
+		}
+	}
+	r.Count("map ranges rendering templates in the language jennies", n)
+	r.Count("languages whose templates reach the API reference collector", withCollector)
+	r.Floor("languages whose templates reach the API reference collector", 3)
+	if n == 0 {
+		r.OK("maporder/templates-reach-collector", "language jennies", token.NoPos, "no template is rendered inside a range over a Go map")
+	}
 }
